@@ -1,0 +1,10 @@
+//go:build verif
+
+package bits
+
+// Property C01 (agent c01a): trace effect of the string readers that had no definitional clause yet.
+// A successful ReadZeroTerminatedString consumes the bytes of the result and the terminating zero byte: the same two chunks
+// WriteString(s, true) writes.
+//@ func (*FixedSliceReader).ReadZeroTerminatedString
+//@   defines[C01] s.err == nil ==> ghost(s).tr == trApp(trApp(old(ghost(s).tr), chBytes(result)), chU(8, uint64(0)))
+//@   assigns s.pos, s.err, ghost(s).tr
